@@ -416,6 +416,14 @@ func c13Records(x *mc.Cell, full bool) {
 							rep := map[string]any{"role": RoleNames[role], "status": datatransfer.Statuses[st], "bits": bits, "stages": sm, "vouchers": nv[0], "results": nv[1], "family": fam}
 							x.Sample(rep)
 							checkMigrated(x, []v2Rec{rec}, rep, 1)
+							if bits == 63 || bits == 0 {
+								// the store was written under another node identity (rotated key, restored backup): the
+								// record's own-peer field is data like any other and must be preserved
+								moved := rec
+								moved.Self = doubles.PeerC
+								rep2 := map[string]any{"role": RoleNames[role], "status": datatransfer.Statuses[st], "bits": bits, "stages": sm, "vouchers": nv[0], "results": nv[1], "family": fam, "written-by-another-identity": true}
+								checkMigrated(x, []v2Rec{moved}, rep2, 1)
+							}
 						}
 					}
 				}
